@@ -10,7 +10,18 @@
 // open in the database, historical spend dispatch, current block epoch, sweep
 // results for inputs that are already spent), and the script continues to the end.
 // Repeated stops: for every k1 and every k2 in [1, W'(k1)] (W' = commits of the
-// resumed run) a second stop k2 commits after the first restart.
+// resumed run) a second stop k2 commits after the first restart, and likewise a
+// third one for the scenarios of depth 3.
+//
+// Oracle (differential against the uninterrupted run of the same scenario, plus
+// invariants that hold for every run): terminal state; close record; per offered
+// HTLC the set of resolutions sent to the switch (equal sets, never settle+fail);
+// per received HTLC the set of final outcomes; resolver reports (as a set); the set
+// of confirmed transactions; nothing published or offered to the sweeper in the
+// uninterrupted run is missing; witness-cache additions; NotifyChannelResolved only
+// with an empty unresolved-contract bucket and StateFullyResolved on disk; no
+// contract's persisted stage ever goes backwards; no call that lnd's pending-close
+// arbitrator could not make (nil Channel / MarkChannelClosed).
 //
 // Executions run inside one testing/synctest bubble per worker process (the dead
 // processes' goroutines stay parked for ever, which a bubble cannot exit from), so
@@ -404,9 +415,9 @@ type c13Planned struct {
 // c13Scenarios enumerates the close scenarios of a tier: every close type x
 // {foreign close first, we broadcast first} x every HTLC subset up to a size.
 func c13Scenarios(thorough bool) []c13Planned {
-	maxH, pairUpTo, tripleUpTo := 2, 1, -1
+	maxH, pairUpTo, tripleUpTo := 2, 2, 0
 	if thorough {
-		maxH, pairUpTo, tripleUpTo = 3, 3, 1
+		maxH, pairUpTo, tripleUpTo = 3, 3, 2
 	}
 	var out []c13Planned
 	add := func(s c13Scn, nh int) {
@@ -496,8 +507,8 @@ func c13Scenarios(thorough bool) []c13Planned {
 // ---------------------------------------------------------------------------
 
 type c13Job struct {
-	ID   int     `json:"id"`
-	Scn  c13Scn  `json:"scn"`
+	ID    int     `json:"id"`
+	Scn   c13Scn  `json:"scn"`
 	Mode  string  `json:"mode"`  // ref | deep | exact
 	Ks    []int64 `json:"ks"`    // deep: first stops (further stops are enumerated below each); exact: the plan
 	Depth int     `json:"depth"` // deep: number of stops per execution
@@ -505,16 +516,15 @@ type c13Job struct {
 }
 
 type c13Result struct {
-	JobID   int      `json:"job"`
-	Start   bool     `json:"start,omitempty"` // marker written before an execution begins
-	Plan    []int64  `json:"plan"`
-	Scn     string   `json:"scn"`
-	Obs     *c13Obs  `json:"obs,omitempty"`
+	JobID   int       `json:"job"`
+	Start   bool      `json:"start,omitempty"` // marker written before an execution begins
+	Plan    []int64   `json:"plan"`
+	Scn     string    `json:"scn"`
+	Obs     *c13Obs   `json:"obs,omitempty"`
 	Viols   []c13Viol `json:"viols,omitempty"`
-	RefHash string   `json:"ref_hash,omitempty"`
-	Ms      int64    `json:"ms"`
-	Err     string   `json:"err,omitempty"`
-	Skipped string   `json:"skipped,omitempty"`
+	RefHash string    `json:"ref_hash,omitempty"`
+	Err     string    `json:"err,omitempty"`
+	Skipped string    `json:"skipped,omitempty"`
 }
 
 // c13Progress is bumped at the start and at the end of every execution (odd:
@@ -665,11 +675,6 @@ func c13HashOf(s string) string {
 // Parent side
 // ---------------------------------------------------------------------------
 
-type c13Batch struct {
-	jobs []c13Job
-	cost int
-}
-
 type c13Pool struct {
 	self    string
 	dir     string
@@ -785,24 +790,24 @@ func TestC13(t *testing.T) {
 	}
 
 	var (
-		mu          sync.Mutex
-		evals       int
-		perScn      = map[string]map[string]int{}
-		refs        = map[string]*c13Obs{}
-		distinct    = map[string]bool{}
-		labelHist   = map[string]int{}
-		restartHist = map[string]int{}
-		termHist    = map[string]int{}
-		skipped     []string
-		capsHit     []string
-		brokenNotes []string
-		samples     = evid.NewSamples(10)
-		violSeen    = map[string]bool{}
-		pendingViol []c13Result
-		refHashes   = map[string]map[string]bool{}
-		nondet      []string
-		exhaustive  = true
-		jobSeq      int
+		mu           sync.Mutex
+		evals        int
+		perScn       = map[string]map[string]int{}
+		refs         = map[string]*c13Obs{}
+		distinct     = map[string]bool{}
+		labelHist    = map[string]int{}
+		restartHist  = map[string]int{}
+		termHist     = map[string]int{}
+		skipped      []string
+		capsHit      []string
+		brokenNotes  []string
+		samples      = evid.NewSamples(10)
+		violSeen     = map[string]bool{}
+		pendingViol  []c13Result
+		refHashes    = map[string]map[string]bool{}
+		nondet       []string
+		exhaustive   = true
+		jobSeq       int
 		writeSamples []any
 	)
 	bump := func(s, k string) {
@@ -1092,18 +1097,18 @@ func TestC13(t *testing.T) {
 		"rule": "an evaluation = one execution of the real started ChannelArbitrator + resolvers on the bolt arbitrator log (crashdb-wrapped bbolt) through a whole close scenario, with 0, 1 or 2 stops; " +
 			"scenarios = close type x {foreign close first, we broadcast first} x every subset (up to a size) of a 9-letter HTLC alphabet; stops are enumerated exhaustively: every k in [1,W] (W = committed write transactions of the uninterrupted run, see scenarios.*.W) and, for the scenarios of depth 2 / 3 (scenarios_by_depth), every (k1,k2[,k3]) with k_{i+1} in [1, commits of the resumed run]; " +
 			"distinct_nontrivial = distinct (scenario, for each stop: the write it follows, arbitrator state on disk, restart mode open/pending-close, unresolved contracts on disk with their stage) among executions in which at least one restart found the channel not yet fully closed",
-		"samples":                 samples.List(),
-		"exhaustive":              exhaustive,
-		"scenarios":               wInfo,
-		"scenario_names":          names,
-		"scenarios_by_depth":      depthScn,
-		"write_sequences":         writeSamples,
-		"executions_per_scenario": perScn,
-		"executions_by_stops":     nStops,
-		"terminal_outcomes":       termHist,
-		"stops_by_preceding_write": labelHist,
+		"samples":                    samples.List(),
+		"exhaustive":                 exhaustive,
+		"scenarios":                  wInfo,
+		"scenario_names":             names,
+		"scenarios_by_depth":         depthScn,
+		"write_sequences":            writeSamples,
+		"executions_per_scenario":    perScn,
+		"executions_by_stops":        nStops,
+		"terminal_outcomes":          termHist,
+		"stops_by_preceding_write":   labelHist,
 		"restarts_by_mode_and_state": restartHist,
-		"workers":                 workers,
+		"workers":                    workers,
 	}
 	if len(skipped) > 0 {
 		cov["stop_plans_not_reached"] = len(skipped)
@@ -1146,15 +1151,6 @@ func TestC13(t *testing.T) {
 		// Completed with a verdict on what ran, but some executions were lost.
 		t.Logf("c13: %d harness problems", len(brokenNotes))
 	}
-}
-
-func c13KeysOf(m map[string]bool) []string {
-	var out []string
-	for k := range m {
-		out = append(out, k)
-	}
-	sort.Strings(out)
-	return out
 }
 
 func c13Tail(s string, n int) string {
@@ -1233,4 +1229,3 @@ func c13ReplayFile(t *testing.T, run *evid.Run, pool *c13Pool, path string) {
 	}
 	os.Exit(run.Finish(map[string]any{"evaluations": max(evals, 1), "distinct_nontrivial": 2, "rule": "replay of one recorded execution, three times", "samples": []any{doc.Replay}}))
 }
-
